@@ -77,7 +77,8 @@ theorem pushLeaves_some {H : HashFn} {leaves : List (Bytes × Bytes)} {hs : List
 /-- an axis root that exists is the root of the leaf hashes of that axis' shares -/
 theorem axisRoot_ok {H : HashFn} {e : Eds} {ax : Axis} {index : Nat} {root : NsHash}
     (h : e.axisRoot H ax index = .ok root) :
-    ∃ shares, e.axis? ax index = some shares ∧ computeRoot H true (shares.map (Share.leafHash H)) = .ok root := by
+    ∃ shares, e.axis? ax index = some shares ∧ computeRoot H true (shares.map (Share.leafHash H)) = .ok root ∧
+      e.axisLeafHashes H ax index = .ok (shares.map (Share.leafHash H)) := by
   unfold Eds.axisRoot Eds.axisLeafHashes at h
   cases ha : e.axis? ax index with
   | none => simp [ha] at h
@@ -88,15 +89,15 @@ theorem axisRoot_ok {H : HashFn} {e : Eds} {ax : Axis} {index : Nat} {root : NsH
     | some hs =>
       simp only [hp] at h
       have := pushLeaves_some hp
-      refine ⟨shares, rfl, ?_⟩
-      cases hc : computeRoot H true hs with
+      have hmap : hs = shares.map (Share.leafHash H) := by
+        rw [this]; simp [List.map_map, Share.leaf, Share.leafHash, Function.comp_def]
+      subst hmap
+      cases hc : computeRoot H true (shares.map (Share.leafHash H)) with
       | error er => simp [hc] at h
       | ok r =>
         simp only [hc, Except.ok.injEq] at h
         subst h
-        rw [← hc, this]
-        congr 1
-        simp [List.map_map, Share.leaf, Share.leafHash, Function.comp_def]
+        exact ⟨shares, rfl, hc, by unfold Eds.axisLeafHashes; simp [ha, hp]⟩
 
 /-- the roots of a DAH built from a square -/
 theorem dah_ofEds_roots {H : HashFn} {e : Eds} {dah : Dah} (h : Dah.ofEds H e = .ok dah) :
